@@ -23,7 +23,11 @@ RULE = ("read-only printing oracle (deep fingerprint of every reachable field be
 
 def facts(res, harness):
     r = regen.gen_facts(harness)
+    for row in r["facts"].get("globalwrites") or []:
+        res.violation("package-level variable %s of package %s is written in %s (printers run unlocked on many goroutines): %s" % (row["var"], row["pkg"], row["func"], row["stmt"]),
+                      {"ops": [], "fact": row, "replay_hint": "cd /verif/harness && ./bin/harness facts | jq .globalwrites"})
     return {"lock_facts": r["facts"]["lock"], "cache_writers": len(r["facts"]["typecache"].get("cacheWriters") or []),
+            "package_level_writes": r["facts"].get("globalwrites") or [],
             "facts_regenerated_changed": r["facts_regenerated_changed"]}
 
 
